@@ -186,7 +186,7 @@ func ruleTraceCount(c *Ctx, r *Report, rule string) {
 	calls := 0
 	ast.Inspect(vm.Func.Body, func(n ast.Node) bool {
 		if call, isC := n.(*ast.CallExpr); isC {
-			if id, isID := call.Fun.(*ast.Ident); isID && id.Name == "readOp" && vm.Closures["readOp"] != nil {
+			if vm.callRole(c, call) == "readOp" {
 				calls++
 			}
 		}
